@@ -57,6 +57,20 @@ def make_pair(rng, r):
     elif cls == "mixed-pure":
         a = gen.unit(rng, d, cplx)
         rho, sig = np.outer(a, a.conj()), gen.density(rng, d, rk(), cplx)
+    elif cls == "commuting" and r % 16 >= 8:
+        # commuting pairs with degenerate spectra: the maximally mixed state against a generic full-rank one, or two states sharing a degenerate
+        # eigenspace inside which only one of them is diagonal
+        sig = 0.8 * gen.density(rng, d, d, cplx) + 0.2 * np.eye(d) / d
+        if r % 32 >= 24 and d >= 3:
+            w_, v_ = np.linalg.eigh(ref.herm(sig))
+            lam = np.array(sorted(rng.random(d - 1) + 0.2))
+            lam = np.concatenate([[lam[0]], lam])  # one doubly degenerate level
+            lam /= lam.sum()
+            rho = ref.herm((v_ * lam) @ v_.conj().T)  # commutes with sigma; an eigensolver is free to pick any basis of its degenerate level
+            cls = "commuting-degenerate"
+        else:
+            rho = np.eye(d) / d
+            cls = "maximally-mixed-vs-generic"
     elif cls == "commuting":
         u = gen.haar(rng, d, real=not cplx)
         p, q = rng.random(d), rng.random(d)
